@@ -307,7 +307,7 @@ fn subscribe_dynamic_body(filter: &str, shared: bool, wildcard: bool) {
 
 // @gv props=C16 tier=quick required=yes fns=validate_subscribe_packet_outbound_internal,is_valid_topic_filter_internal,compute_topic_filter_properties
 // @gv bounds="SUBSCRIBE with the plain filter 'a/b'; symbolic packet id, no-local flag, subscription identifier absent or in 1..268435455; all CONNACK capability combinations and any maximum packet size"
-// @gv timeout=1200 mem=12
+// @gv timeout=1200 mem=5
 #[kani::proof]
 #[kani::unwind(8)]
 #[kani::stub(std::fmt::format, stub_format)]
@@ -315,7 +315,7 @@ fn c16_dynamic_subscribe_plain() { subscribe_dynamic_body("a/b", false, false) }
 
 // @gv props=C16 tier=quick required=yes fns=validate_subscribe_packet_outbound_internal,is_valid_topic_filter_internal,compute_topic_filter_properties
 // @gv bounds="as c16_dynamic_subscribe_plain with the wildcard filter 'a/#'"
-// @gv timeout=1200 mem=12
+// @gv timeout=1200 mem=5
 #[kani::proof]
 #[kani::unwind(8)]
 #[kani::stub(std::fmt::format, stub_format)]
@@ -323,7 +323,7 @@ fn c16_dynamic_subscribe_wildcard() { subscribe_dynamic_body("a/#", false, true)
 
 // @gv props=C16 tier=quick required=yes fns=validate_subscribe_packet_outbound_internal,is_valid_topic_filter_internal,compute_topic_filter_properties
 // @gv bounds="as c16_dynamic_subscribe_plain with the shared filter '$share/g/t'"
-// @gv timeout=1200 mem=12
+// @gv timeout=1200 mem=5
 #[kani::proof]
 #[kani::unwind(12)]
 #[kani::stub(std::fmt::format, stub_format)]
@@ -354,7 +354,7 @@ fn c16_dynamic_subscribe_subid_unavailable() {
 
 // @gv props=C16 tier=quick required=yes fns=validate_unsubscribe_packet_outbound_internal,is_valid_topic_filter_internal
 // @gv bounds="UNSUBSCRIBE with the filter '+/x'; symbolic packet id; all CONNACK capability combinations and any maximum packet size"
-// @gv timeout=1200 mem=12
+// @gv timeout=1200 mem=5
 #[kani::proof]
 #[kani::unwind(8)]
 #[kani::stub(std::fmt::format, stub_format)]
